@@ -118,7 +118,9 @@ def build_by_route(base, points, makers, route):
     if route == "ctor":
         return gen.build_root(insert(base, points, makers))
     if route == "tf":
-        wrapped = [[{"k": "tf", "ret": "list", "c": mk}] for mk in makers]
+        # a tagifiable may return a TagList of metadata, or a single bare metadata node
+        wrapped = [[{"k": "tf", "ret": "list", "c": mk}] if len(mk) != 1 or sum(map(len, (m["k"] for m in mk))) % 2 else [{"k": "tf", "ret": "one", "c": mk}]
+                   for mk in makers]
         return gen.build_root(insert(base, points, wrapped))
     live = gen.build_root(base)
     order = sorted(zip(points, makers), key=lambda pm: (pm[0][0], pm[0][1]), reverse=True)
